@@ -34,29 +34,97 @@ func (o lruOp) String() string {
 	return "Len()"
 }
 
-// runLRU executes ops on a fresh cache; returns step outputs, callback log, dump — as base-100 digits
-func runLRU(c *valid.LRUCache, ops []lruOp) (outs, lg, dmp []int64) {
-	c.SetDelCallBackFn(func(key, value interface{}) {
-		k, _ := key.(int)
-		v, _ := value.(int)
-		if key == nil {
-			k = 9 // nil key: cannot happen on a consistent cache; shows up as a mismatch
+// how the abstract keys / values (small numbers) are presented to the cache, which takes interface{}:
+//   rep 0: ints                                   rep 1: string keys, []int values (not comparable with ==)
+//   rep 2: key 0 is the nil interface, the others are *int; values are structs holding a slice
+type lruVal struct{ S []int }
+
+var lruPtrKeys = func() []*int {
+	ps := make([]*int, 2000)
+	for i := range ps {
+		x := i
+		ps[i] = &x
+	}
+	return ps
+}()
+
+func lruKey(k, rep int) interface{} {
+	switch rep {
+	case 1:
+		return "k" + strconv.Itoa(k)
+	case 2:
+		if k == 0 {
+			return nil
 		}
-		lg = append(lg, int64(k*10+v))
+		return lruPtrKeys[k]
+	}
+	return k
+}
+func lruValue(v, rep int) interface{} {
+	switch rep {
+	case 1:
+		return []int{v}
+	case 2:
+		return lruVal{[]int{v}}
+	}
+	return v
+}
+func lruUnKey(key interface{}, rep int) int {
+	switch x := key.(type) {
+	case int:
+		return x
+	case string:
+		n, _ := strconv.Atoi(x[1:])
+		return n
+	case *int:
+		return *x
+	case nil:
+		if rep == 2 {
+			return 0
+		}
+	}
+	return 9 // a nil key in the other presentations: cannot happen on a consistent cache; shows up as a mismatch
+}
+func lruUnValue(v interface{}) int {
+	switch x := v.(type) {
+	case int:
+		return x
+	case []int:
+		return x[0]
+	case lruVal:
+		return x.S[0]
+	}
+	return 0
+}
+
+var lruPanics []string
+
+// runLRU executes ops on a fresh cache; returns step outputs, callback log, dump — as base-100 digits
+func runLRU(c *valid.LRUCache, ops []lruOp) (outs, lg, dmp []int64) { return runLRURep(c, ops, 0) }
+
+func runLRURep(c *valid.LRUCache, ops []lruOp, rep int) (outs, lg, dmp []int64) {
+	defer func() {
+		if p := recover(); p != nil { // a panic inside the cache: recorded as an output no model run produces
+			outs = append(outs, 97)
+			lruPanics = append(lruPanics, fmt.Sprintf("presentation %d, ops %v: %v", rep, ops[:min(len(ops), 8)], p))
+		}
+	}()
+	c.SetDelCallBackFn(func(key, value interface{}) {
+		lg = append(lg, int64(lruUnKey(key, rep)*10+lruUnValue(value)))
 	})
 	for _, o := range ops {
 		switch o.kind {
 		case 0:
-			c.Store(o.k, o.v)
+			c.Store(lruKey(o.k, rep), lruValue(o.v, rep))
 		case 1:
-			v, ok := c.Load(o.k)
+			v, ok := c.Load(lruKey(o.k, rep))
 			if !ok {
 				outs = append(outs, 0)
 			} else {
-				outs = append(outs, int64(1+v.(int)))
+				outs = append(outs, int64(1+lruUnValue(v)))
 			}
 		case 2:
-			c.Delete(o.k)
+			c.Delete(lruKey(o.k, rep))
 		case 3:
 			n := c.Len()
 			if n < 0 {
@@ -69,7 +137,7 @@ func runLRU(c *valid.LRUCache, ops []lruOp) (outs, lg, dmp []int64) {
 	d := c.Dump()
 	if d != "" {
 		for _, line := range strings.Split(d, "\n") {
-			n, _ := strconv.Atoi(line)
+			n, _ := strconv.Atoi(strings.Trim(line, "[]{} ")) // a slice value prints as [7], the struct as {[7]}
 			dmp = append(dmp, int64(n))
 		}
 	}
@@ -142,6 +210,25 @@ func runC09(c *Ctx) error {
 				fmt.Sprintf("exh:cap%d:first%d", cp, first))
 		}
 	}
+	// the same, with keys and values of other dynamic types (strings / slices; the nil key / pointers / structs), length 3
+	for rep := 1; rep <= 2; rep++ {
+		for cp := 0; cp <= 2; cp++ {
+			for first := 0; first < len(lruAlphabet); first++ {
+				L3 := 3
+				n := len(lruAlphabet) * len(lruAlphabet)
+				obs := make([]string, 0, n)
+				for s := 0; s < n; s++ {
+					ops := []lruOp{lruAlphabet[first], lruAlphabet[s/len(lruAlphabet)], lruAlphabet[s%len(lruAlphabet)]}
+					o, lg, d := runLRURep(valid.NewLRU(cp), ops, rep)
+					obs = append(obs, packDigits(o, lg, d))
+				}
+				total += n
+				term := fmt.Sprintf("CExh %d %d%%nat (Some %d%%nat) [%s]%%Z", cp, L3, first, strings.Join(obs, ";"))
+				w.Add(term, map[string]interface{}{"kind": "exhaustive", "cap": cp, "len": L3, "first": first, "alphabet": alphaDesc, "presentation": rep},
+					fmt.Sprintf("exh:rep%d:cap%d:first%d", rep, cp, first))
+			}
+		}
+	}
 	w.Dist["exhaustive.sequences"] = total
 	w.Extra["exhaustive"] = true
 	w.Extra["evaluations"] = total
@@ -171,10 +258,10 @@ func runC09(c *Ctx) error {
 			}
 			codes[j] = int64(ops[j].kind*1000000 + ops[j].k*100 + ops[j].v)
 		}
-		o, lg, d := runLRU(valid.NewLRU(cp), ops)
+		o, lg, d := runLRURep(valid.NewLRU(cp), ops, i%3)
 		w.Add(fmt.Sprintf("CRun (Some %d%%Z) %s %s %s %s", cp, zlist(codes), zlist(o), zlist(lg), zlist(d)),
-			map[string]interface{}{"kind": "random", "cap": cp, "keys": nkeys, "ops": length, "first_ops": fmt.Sprint(ops[:8])},
-			fmt.Sprintf("rand:cap%d:keys%d", cp, nkeys))
+			map[string]interface{}{"kind": "random", "cap": cp, "keys": nkeys, "ops": length, "first_ops": fmt.Sprint(ops[:8]), "presentation": i % 3},
+			fmt.Sprintf("rand:cap%d:keys%d:rep%d", cp, nkeys, i%3))
 		w.Count("random.sequences")
 	}
 	// default capacity (NewLRU() = lruSize from the source), many keys: continuous eviction
@@ -200,6 +287,16 @@ func runC09(c *Ctx) error {
 		w.Add(fmt.Sprintf("CRun None %s %s %s %s", zlist(codes), zlist(o), zlist(lg), zlist(d)),
 			map[string]interface{}{"kind": "default-capacity", "ops": len(ops)}, "default-cap")
 		w.Count("default.capacity")
+	}
+	if len(lruPanics) > 0 {
+		var vs []interface{}
+		for i, p := range lruPanics {
+			if i >= 20 {
+				break
+			}
+			vs = append(vs, map[string]interface{}{"kind": "panic", "where": p})
+		}
+		w.Extra["violations"] = vs
 	}
 	return w.Flush()
 }
